@@ -39,6 +39,17 @@ def check(R):
         R.expect('P9', ifr.fn, 'exchange match tests the initiator flag of the header', 'transport::proto_hdr::ProtoHdr::is_initiator' in ifr.calls_summary, 'is_initiator()', 'is_initiator not consulted')
         eqs = [c for c in prims.compare_sites(ifr, ops=('Eq',)) if mentions(prims.sources(ifr, c[3]) | prims.sources(ifr, c[4]), 'exch_id')]
         R.expect('P9', ifr.fn, 'exchange ids are compared for equality', len(eqs) >= 1, 'Eq', 'no equality on exch_id')
+        rel = [c for c in prims.compare_sites(ifr, ops=('Eq',)) if 'transport::proto_hdr::ProtoHdr::is_initiator' in src_calls(prims.sources(ifr, c[3]) | prims.sources(ifr, c[4]))]
+        okrel = False
+        for c in rel:
+            other = c[4] if 'transport::proto_hdr::ProtoHdr::is_initiator' in src_calls(prims.sources(ifr, c[3])) else c[3]
+            so = prims.sources(ifr, other)
+            okrel = okrel or (mentions(so, 'role') or 0 in src_consts(so) or 1 in src_consts(so))
+        R.expect('P9', ifr.fn, 'the header\'s initiator flag must EQUAL "our role is Responder" (an equality, not a disjunction)', okrel,
+                 'is_initiator() == matches!(role, Responder(_))', 'no equality between the initiator flag and the role test: a message can match an exchange of the wrong role')
+        rd = prims.result_defs(ifr)
+        R.expect('P10', ifr.fn, 'the match result is false, or that equality', all((k == 'const' and p == 0) or k == 'expr' for bb, k, p in rd) and any(k == 'expr' and p.get('op') == 'bin' and p.get('b') == 'Eq' for bb, k, p in rd),
+                 'exch_id == .. && (flag == role)', f'{[(k, p.get("b") if isinstance(p, dict) else p) for bb, k, p in rd]}')
         gx = bodies_of(F, SESS + '::get_exch_for_rx')
         R.expect('P4', SESS + '::get_exch_for_rx', 'exchange lookup uses ExchangeState::is_for_rx', any(ES + '::is_for_rx' in b.calls_summary for b in gx), 'ok', 'is_for_rx not used')
 
@@ -88,6 +99,26 @@ def check(R):
             R.expect('P3', orp.fn, f'orphan sweep: {desc} -> the packet is dropped', bool(fe_) and not bad, 'None edge -> clear + true', f'None edge returns without dropping: {bad}')
         R.cut('P2', orp, 'keep the packet (return false)', [bb for bb, k, p in prims.result_defs(orp) if k == 'const' and p == 0], 'session and exchange exist and the exchange is not dropped',
               lambda: _fail_edges(R, orp, 'transport::exchange::Role::is_dropped_state'))
+
+    # ---- c2 -------------------------------------------------------------------
+    with R.clause('c2'):
+        hd = closure_in(R, TR + '::handle_dropped_exchange', ['Sessions::get_exch'])
+        preds = [b for b in F.nested(TR + '::handle_dropped_exchange') if b.kind == 'closure' and 'transport::exchange::Role::is_dropped_state' in b.calls_summary]
+        R.floor('dropped-exchange predicates', len(preds), 2)
+        pol = []
+        for pb in preds:
+            extra = sorted(c for c in pb.calls_summary if c.startswith('transport::') and c not in ('transport::exchange::Role::is_dropped_state', 'transport::mrp::ReliableMessage::is_retrans_pending'))
+            R.expect('P5', pb.fn, 'the dropped-exchange sweep partitions dropped exchanges by `retransmission pending` only', not extra and 'transport::mrp::ReliableMessage::is_retrans_pending' in pb.calls_summary,
+                     'is_dropped_state() && [!]is_retrans_pending()', f'predicate also consults {extra}: a dropped exchange matching neither predicate is never closed and pins its session')
+            nf = prims.nonfalse_result_bbs(pb)
+            t = pb.calls('transport::mrp::ReliableMessage::is_retrans_pending')
+            if t:
+                tr = prims.track_result(F, pb, t[0])
+                rd_ = prims.result_defs(pb)
+                direct = any(k == 'call' and p.get('f', '').endswith('is_retrans_pending') for bb, k, p in rd_)
+                neg = any(k == 'expr' and p.get('op') == 'un' and p.get('u') == 'Not' for bb, k, p in rd_)
+                pol.append('+' if direct else ('-' if neg else '?'))
+        R.expect('P5', TR + '::handle_dropped_exchange', 'one predicate takes retransmission-pending exchanges, the other exactly the rest', sorted(pol) == ['+', '-'], str(pol), f'polarities {pol}: the two lookups do not cover every dropped exchange')
 
     # ---- d --------------------------------------------------------------------
     with R.clause('d'):
